@@ -15,7 +15,7 @@ RULE = ("directed multigraphs over 2-4 stylesheets (root t plus a, b, c), every 
         "loaded many times), cyclic canonical family, cyclic family with a non-canonical spelling or load-css on the cycle; "
         "normalising in-memory loader (loader-call log compared), exact in-memory loader and the real file system; "
         "distinct = distinct (mode, graph); non-trivial = at least two load edges")
-EXHAUSTIVE = {"quick": False, "thorough": False}
+EXHAUSTIVE = {"quick": False, "thorough": True}
 TRUSTED = ["Spec/LoadRef.v: reference semantics (canonical files, stack-based loop detection) written from the property text",
            "the operating system resolves `.`/`..` as Model/LoadRun.v fs_isfile does (checked against the real file system on every run)",
            "a run stopped by the operating system (stack overflow, or PATH_MAX after ~2000 nested `./` prefixes on a real file system: "
@@ -109,7 +109,7 @@ def gen_cases(ctx, tier):
         sp = "{}" if canonical else rng.choice(SPELL + ["{}", "{}"])
         return (s, d, rng.choice(KINDS4), sp)
 
-    na, nb, nc = (700, 500, 16) if tier == "quick" else (6000, 5000, 260)
+    na, nb, nc = (600, 400, 130) if tier == "quick" else (6000, 5000, 2000)
     # family A: acyclic (edges go from lower to higher index), any spelling, multi-edges
     for _ in range(na):
         n = rng.choice([2, 3, 3, 4, 4])
@@ -146,14 +146,12 @@ def gen_cases(ctx, tier):
         for combo in itertools.product(opts, repeat=4):
             edges = [(s, d, o[0], o[1]) for (s, d), o in zip([(0, 0), (0, 1), (1, 0), (1, 1)], combo) if o]
             add(2, edges, "norm")
+    # (before the fixes d80c9be / 2454c18 the `loud` graphs overflowed the stack and were rationed;
+    #  now they are ordinary cases: loop errors)
     rest = loud[ncorpus:]
     rng.shuffle(rest)
-    loud = loud[:ncorpus] + rest[:max(0, nc - ncorpus)]
-    # at most a few runs on the real file system among the slow ones
-    cases = quiet
-    step = max(1, len(cases) // (len(loud) + 1))
-    for i, c in enumerate(loud):
-        cases.insert(min(len(cases), (i + 1) * step + i), c)
+    cap = 400 if tier == "quick" else 30000
+    cases = loud[:ncorpus] + quiet + rest[:cap]
     return cases
 
 
@@ -176,7 +174,7 @@ def coq_term(c, io):
     return (f"(mkCase {coq_world(c['world'])} {coq_mode(c)} {cstring(c['root'])} {cstring(c['rootid'])} {coq_impl(d)})")
 
 
-KCLASS = {0: None, 1: "known_C02_K1_spelled_url_on_cycle", 2: "known_C02_K2_loadcss_only_cycle"}
+KCLASS = {0: None}
 
 
 def judge(c, io, r):
@@ -185,7 +183,7 @@ def judge(c, io, r):
     nedges = sum(1 for _, b in c["world"] for x in b if x[0] == "load")
     return {
         "corr": corr == 1,
-        "clauses": [("terminates", t1 == 1, KCLASS[k]), ("loop-reported", t2 == 1, KCLASS[k]),
+        "clauses": [("terminates", t1 == 1, None), ("loop-reported", t2 == 1, None),
                     ("no-false-loop", t3 == 1, None), ("outcome", t4 == 1, None)],
         "nontrivial": nedges >= 2,
         "tags": [c["mode"], f"ref{refcls}", f"impl{d['cls']}"],
